@@ -30,7 +30,7 @@ Definition visit (below : tree -> str -> str -> Z -> option str -> list event)
   Ev (t_id T) i m o l' (Some (t_id T, i)) (is_leaf t i) ::
   match nth_error (subs_of t) (Z.to_nat i) with
   | Some (Some s) =>
-      below s (snipk name m) args (child_obj o (t_id T) i (if mem 35 name then first_number m else 0)) l'
+      below s (snipk name m) args (child_obj o (t_id T) i (port_index name m)) l'
   | _ => []
   end.
 
@@ -155,7 +155,7 @@ Definition tree_cb (f : nat) (t : tree) (args : str) : callback := fun i msg d =
   match nth_error (subs_of t) (Z.to_nat i) with
   | Some (Some sub) =>
       let name := match nth_error (t_ports T) (Z.to_nat i) with Some (n, _) => n | None => [] end in
-      let n := if mem 35 name then first_number msg else 0 in
+      let n := port_index name msg in
       dispatch_f f sub (snipk name msg) args false (set_obj d1 (child_obj (obj d1) (t_id T) i n))
   | _ => d1
   end.
@@ -478,7 +478,7 @@ Proof.
   { intros hits. apply Forall_forall. intros e He. apply in_flat_map in He as ([[[i name] sub] pe] & _ & He).
     unfold visit in He. destruct He as [<-|He]; [reflexivity|].
     destruct (nth_error (subs_of t) (Z.to_nat i)) as [[s|]|]; try contradiction.
-    specialize (IH s (snipk name m) args (child_obj o (t_id (tab_of t)) i (if mem 35 name then first_number m else 0))
+    specialize (IH s (snipk name m) args (child_obj o (t_id (tab_of t)) i (port_index name m))
                    (option_map (fun l => l ++ app_of name m pe) p)).
     rewrite Forall_forall in IH. now apply IH. }
   destruct p as [l|]; [|apply G]. destruct (tables_of (tab_of t)); [|apply G].
@@ -559,7 +559,7 @@ Fixpoint chain (path : list nat) (t : tree) (m args : str) (o : Z) (p : option s
           match nth_error (subs_of t) n with
           | Some (Some s) =>
               chain rest s (snipk name m) args
-                    (child_obj o (t_id T) i (if mem 35 name then first_number m else 0)) l'
+                    (child_obj o (t_id T) i (port_index name m)) l'
           | _ => []
           end
       end
@@ -595,7 +595,7 @@ Proof.
   destruct (pred f) as [|g] eqn:G; [pose proof (depth_pos s); lia|].
   cbn [spec_run].
   specialize (IH (S g) s (snipk name m) args
-    (child_obj o (t_id T) (Z.of_nat n) (if mem 35 name then first_number m else 0))
+    (child_obj o (t_id T) (Z.of_nat n) (port_index name m))
     (option_map (fun l => l ++ app_of name m pe) p) Hs Hrest). cbn [pred] in IH.
   destruct (option_map (fun l => l ++ app_of name m pe) p) as [l'|]; [|exact IH].
   destruct (tables_of (tab_of s)); [|exact IH].
@@ -627,7 +627,7 @@ Proof.
   cbn [chain]. rewrite En. unfold is_leaf. rewrite Nat2Z.id.
   destruct (nth_error (subs_of t) n) as [[s|]|].
   - destruct (IH s (snipk name m) args
-               (child_obj o (t_id (tab_of t)) (Z.of_nat n) (if mem 35 name then first_number m else 0))
+               (child_obj o (t_id (tab_of t)) (Z.of_nat n) (port_index name m))
                (option_map (fun l => l ++ app_of name m
                    (match rtosc_match name m args with Some (_, Some pe) => pe | _ => [] end)) p) Hrest)
       as [C L].
@@ -812,7 +812,7 @@ Proof.
     - destruct (nth_error subs n) as [[s|]|] eqn:Es; try contradiction.
       destruct Hkind as [St Hns]. specialize (Hdesc St Hns).
       assert (IHs := IH s (snipk (render p) m) args
-                (child_obj o (t_id T) (0 + Z.of_nat n) (if mem 35 (render p) then first_number m else 0))
+                (child_obj o (t_id T) (0 + Z.of_nat n) (port_index (render p) m))
                 (l ++ app_of (render p) m pe) (l ++ m)).
       rewrite Forall_forall in IHs. apply IHs; try assumption.
       + eapply Hsubs; eassumption.
